@@ -94,7 +94,7 @@ Done == AtRest /\ txn = NTx
 \* ---- the clock (ageing of the armed timers, see the header) ----
 AgeT(t, dt, int) == IF t.armed THEN [t EXCEPT !.start = CMax(@ - dt, Now - int)] ELSE t
 AgedS(dt) == [hs EXCEPT !.ackT = AgeT(@, dt, cfg.ackInt), !.chkT = AgeT(@, dt, cfg.chkInt)]
-AgedD(dt) == [hd EXCEPT !.p.nakT = AgeT(@, dt, cfg.nakInt), !.p.ackT = AgeT(@, dt, cfg.ackInt),
+AgedD(dt) == [hd EXCEPT !.p.nakT = AgeT(@, dt, cfg.nakInt), !.p.ackT = AgeT(@, dt, D!AckIntD(cfg)),
                         !.p.chkT = AgeT(@, dt, cfg.chkInt)]
 CanTick == \E dt \in Ticks : <<AgedS(dt), AgedD(dt)>> # <<hs, hd>>   \* some armed timer has not expired yet
 \* A side is settled when its last call had no effect (nothing emitted, no state change) or its transaction is closed.
